@@ -18,6 +18,8 @@ struct NumCase {
     integer: bool,
     mult: Option<String>,
     class: &'static str,
+    /// additional bound keywords on top of lo/hi (e.g. maximum AND exclusiveMaximum)
+    extra: Vec<(&'static str, String)>,
 }
 
 impl NumCase {
@@ -28,6 +30,9 @@ impl NumCase {
         }
         if let Some(h) = &self.hi {
             parts.push(format!("\"{}\":{}", if self.hi_excl { "exclusiveMaximum" } else { "maximum" }, h));
+        }
+        for (k, v) in &self.extra {
+            parts.push(format!("\"{k}\":{v}"));
         }
         if let Some(m) = &self.mult {
             parts.push(format!("\"multipleOf\":{m}"));
@@ -54,14 +59,73 @@ impl NumCase {
                 return Some(false);
             }
         }
+        for (k, v) in &self.extra {
+            let c = x.cmp(&Dec::parse(v)?);
+            let ok = match *k {
+                "minimum" => c != Less,
+                "exclusiveMinimum" => c == Greater,
+                "maximum" => c != Greater,
+                "exclusiveMaximum" => c == Less,
+                _ => true,
+            };
+            if !ok {
+                return Some(false);
+            }
+        }
         if let Some(m) = &self.mult {
             return x.is_multiple_of(&Dec::parse(m)?);
         }
         Some(true)
     }
 
+    /// fold the extra keywords into one effective pair of bounds (stricter wins, exclusive wins ties)
+    fn effective(&self) -> NumCase {
+        let mut e = self.clone();
+        e.extra.clear();
+        use std::cmp::Ordering::*;
+        for (k, v) in &self.extra {
+            let d = Dec::parse(v).unwrap();
+            match *k {
+                "minimum" | "exclusiveMinimum" => {
+                    let excl = *k == "exclusiveMinimum";
+                    let replace = match &e.lo {
+                        None => true,
+                        Some(l) => match d.cmp(&Dec::parse(l).unwrap()) {
+                            Greater => true,
+                            Equal => excl && !e.lo_excl,
+                            Less => false,
+                        },
+                    };
+                    if replace {
+                        e.lo = Some(v.clone());
+                        e.lo_excl = excl;
+                    }
+                }
+                _ => {
+                    let excl = *k == "exclusiveMaximum";
+                    let replace = match &e.hi {
+                        None => true,
+                        Some(h) => match d.cmp(&Dec::parse(h).unwrap()) {
+                            Less => true,
+                            Equal => excl && !e.hi_excl,
+                            Greater => false,
+                        },
+                    };
+                    if replace {
+                        e.hi = Some(v.clone());
+                        e.hi_excl = excl;
+                    }
+                }
+            }
+        }
+        e
+    }
+
     /// exact emptiness; None = not decided by this oracle. All inputs have <=4 fraction digits.
     fn is_empty(&self) -> Option<bool> {
+        if !self.extra.is_empty() {
+            return self.effective().is_empty();
+        }
         const S: i128 = 10_000;
         let sc = |t: &str| -> Option<i128> {
             let d = Dec::parse(t)?;
@@ -274,6 +338,9 @@ fn literals(c: &NumCase) -> Vec<String> {
     if let Some(h) = &c.hi {
         around(h, &mut v);
     }
+    for (_, x) in &c.extra {
+        around(x, &mut v);
+    }
     if c.lo.is_none() && c.hi.is_none() {
         around("0", &mut v);
     }
@@ -450,7 +517,7 @@ pub fn run(ctx: &mut Ctx) {
                         mo.push(Some(mults_frac[(r + 2) % 5].to_string()));
                     }
                     for m in mo {
-                        let c = NumCase { lo: Some(a.to_string()), lo_excl: ex & 1 != 0, hi: Some(b.to_string()), hi_excl: ex & 2 != 0, integer, mult: m, class: "int_grid" };
+                        let c = NumCase { lo: Some(a.to_string()), lo_excl: ex & 1 != 0, hi: Some(b.to_string()), hi_excl: ex & 2 != 0, integer, mult: m, class: "int_grid", extra: vec![] };
                         emit(ctx, c, &mut idx, &mut complete);
                     }
                 }
@@ -463,8 +530,29 @@ pub fn run(ctx: &mut Ctx) {
             for integer in [true, false] {
                 for (lo, hi) in [(Some(a.to_string()), None), (None, Some(a.to_string()))] {
                     let m = if a % 3 == 0 { Some(mults_int[(a.rem_euclid(6)) as usize].to_string()) } else { None };
-                    let c = NumCase { lo, lo_excl: ex, hi, hi_excl: ex, integer, mult: m, class: "one_sided" };
+                    let c = NumCase { lo, lo_excl: ex, hi, hi_excl: ex, integer, mult: m, class: "one_sided", extra: vec![] };
                     emit(ctx, c, &mut idx, &mut complete);
+                }
+            }
+        }
+    }
+    // Block A2: inclusive AND exclusive keyword on the same side (ties and near-ties)
+    let w2: i64 = ctx.pick(8, 30);
+    for a in -w2..=w2 {
+        for d in -1..=1i64 {
+            for span in [0i64, 1, 2, 5] {
+                for integer in [true, false] {
+                    for side in 0..4 {
+                        let (lo, lo_excl, hi, hi_excl, extra): (Option<String>, bool, Option<String>, bool, Vec<(&'static str, String)>) = match side {
+                            0 => (Some((a - span).to_string()), false, Some(a.to_string()), false, vec![("exclusiveMaximum", (a + d).to_string())]),
+                            1 => (Some((a - span).to_string()), false, Some(a.to_string()), true, vec![("maximum", (a + d).to_string())]),
+                            2 => (Some(a.to_string()), false, Some((a + span).to_string()), false, vec![("exclusiveMinimum", (a + d).to_string())]),
+                            _ => (Some(a.to_string()), true, Some((a + span).to_string()), false, vec![("minimum", (a + d).to_string())]),
+                        };
+                        let m = if (a + span).rem_euclid(4) == 0 { Some("2".to_string()) } else { None };
+                        let c = NumCase { lo, lo_excl, hi, hi_excl, integer, mult: m, class: "both_keywords", extra };
+                        emit(ctx, c, &mut idx, &mut complete);
+                    }
                 }
             }
         }
@@ -479,7 +567,7 @@ pub fn run(ctx: &mut Ctx) {
             for ex in 0..4 {
                 for integer in [false, true] {
                     for m in [None, Some("0.1"), Some("0.25"), Some("0.01"), Some("1")] {
-                        let c = NumCase { lo: Some(a.to_string()), lo_excl: ex & 1 != 0, hi: Some(b.to_string()), hi_excl: ex & 2 != 0, integer, mult: m.map(|s| s.to_string()), class: "dec_grid" };
+                        let c = NumCase { lo: Some(a.to_string()), lo_excl: ex & 1 != 0, hi: Some(b.to_string()), hi_excl: ex & 2 != 0, integer, mult: m.map(|s| s.to_string()), class: "dec_grid", extra: vec![] };
                         emit(ctx, c, &mut idx, &mut complete);
                     }
                 }
@@ -496,7 +584,7 @@ pub fn run(ctx: &mut Ctx) {
             }
             for ex in 0..4 {
                 for integer in [true, false] {
-                    let c = NumCase { lo: Some(a.to_string()), lo_excl: ex & 1 != 0, hi: Some(b.to_string()), hi_excl: ex & 2 != 0, integer, mult: None, class: "pow10" };
+                    let c = NumCase { lo: Some(a.to_string()), lo_excl: ex & 1 != 0, hi: Some(b.to_string()), hi_excl: ex & 2 != 0, integer, mult: None, class: "pow10", extra: vec![] };
                     emit(ctx, c, &mut idx, &mut complete);
                 }
             }
